@@ -12,10 +12,19 @@ PROP = dict(
             job("lnwire", "^TestVerifC10SizeBoundary$", ["TestVerifC10SizeBoundary"], 300, shards=1),
             job("lnwire", "^TestVerifC10BytesFixpoint$", ["TestVerifC10BytesFixpoint"], 3000, shards=2),
             job("lnwire", "^TestVerifC10Prefixes$", ["TestVerifC10Prefixes"], 100, shards=1),
+            job("lnwire", "^TestVerifC10AllocBound$", ["TestVerifC10AllocBound"], 30, shards=2, v=True),
+            job("lnwire", "^TestVerifC10(OnionFailure|FailurePacket)$", ["TestVerifC10OnionFailure", "TestVerifC10FailurePacket"], 3000, shards=1),
+            job("lnwire", "^TestVerifC10(ExtraDataTLV|CustomRecords)$", ["TestVerifC10ExtraDataTLV", "TestVerifC10CustomRecords"], 5000, shards=1),
             job(TLV, "^TestVerifC10TLVStream$", ["TestVerifC10TLVStream"], 20000, shards=2),
             job(TLV, "^TestVerifC10(VarInt|Truncated)$", ["TestVerifC10VarInt", "TestVerifC10Truncated"], 20000, shards=1),
         ],
         thorough=[
+            job("lnwire", "^FuzzVerifC10Message$", [], 0, fuzz="^FuzzVerifC10Message$", fuzztime="20s", parallel=4, timeout=600),
+            job("lnwire", "^FuzzVerifC10Failure$", [], 0, fuzz="^FuzzVerifC10Failure$", fuzztime="20s", parallel=4, timeout=600),
+            job("lnwire", "^FuzzVerifC10Mutate$", [], 0, fuzz="^FuzzVerifC10Mutate$", fuzztime="20s", parallel=4, timeout=600),
+            job("lnwire", "^FuzzVerifC10Value$", [], 0, fuzz="^FuzzVerifC10Value$", fuzztime="20s", parallel=4, timeout=600),
+            job(TLV, "^FuzzVerifC10TLVRaw$", [], 0, fuzz="^FuzzVerifC10TLVRaw$", fuzztime="20s", parallel=4, timeout=600),
+            job(TLV, "^FuzzVerifC10TLVGen$", [], 0, fuzz="^FuzzVerifC10TLVGen$", fuzztime="20s", parallel=4, timeout=600),
         ],
     ),
 )
